@@ -649,6 +649,9 @@ func runC18(ctx *Ctx) error {
 			}
 		}
 	}
+	// the reply to a client ping as second writer (wsutil writes it on the connection the handler reads from)
+	conns = append(conns, c18ConnSched{ID: "conn-pong", Locked: locked, Pong: true, Torn: !locked,
+		Labels: []string{"hdr:data", "client ping", "pong (one Write) or wait for the write lock", "pay:data"}})
 	cres, ccr, err := c18RunChildren(ctx, c18Job{Mode: "conn", Conns: conns}, len(conns), 3*time.Minute)
 	if err != nil {
 		return err
@@ -873,6 +876,8 @@ func c18Scripts(ctx *Ctx, volume bool) []c18Script {
 		{cl("init", "", 0), cl("start", "1", 0), up("errobj", "1", 0, 0), cl("stop", "1", 50)},
 		{cl("init", "", 0), cl("start", "1", 0), up("errlist", "1", 0, 0), up("event", "1", 0, 0), up("drop", "1", 0, 0), cl("stop", "1", 0)},
 		{cl("init", "", 0), cl("start", "1", 0), cl("ping", "", 0), up("burst", "1", 4, 0), cl("ping", "", 0), cl("terminate", "", 200)},
+		{cl("init", "", 0), cl("start", "1", 0), up("burstping", "1", 150, 0), cl("stop", "1", 200), cl("terminate", "", 100)},
+		{cl("init", "", 0), cl("start", "1", 0), cl("start", "2", 0), up("burstping", "1", 80, 0), up("burstping", "2", 80, 0), cl("terminate", "", 300)},
 		{cl("init", "", 0), cl("start-refused", "1", 0), cl("terminate", "", 200)},
 		{cl("init", "", 0), cl("start", "1", 0), cl("start-refused", "2", 0), up("event", "1", 0, 0), cl("stop", "1", 100), cl("start-refused", "3", 0), cl("abort", "", 200)},
 	}
